@@ -612,6 +612,19 @@ func (d *deriver) run(formatter string) (*Derived, error) {
 			return nil, &interp.ErrUndecided{Pos: pos, Msg: err.Error()}
 		}
 		s.Aux = map[string]interp.Value{"vr": vr, "rec": rec}
+		// the parts a Var embeds or holds by value know what the Var knows (methods may be declared there)
+		var share func(st *interp.Struct, depth int)
+		share = func(st *interp.Struct, depth int) {
+			for _, f := range st.Fields {
+				if inner, ok := f.(*interp.Struct); ok && inner != st && depth < 3 {
+					if inner.Aux == nil {
+						inner.Aux = s.Aux
+					}
+					share(inner, depth+1)
+				}
+			}
+		}
+		share(s, 0)
 		// the Var's type opaque must be owned by this Var for the qualifier check of TypeString
 		typ.ID = vr.ID + ".type"
 		return &interp.Ptr{Elem: s}, nil
@@ -641,6 +654,31 @@ func (d *deriver) run(formatter string) (*Derived, error) {
 		nt := *typ
 		nt.ID = id + ".type"
 		return &interp.Opaque{Kind: "types.Var", ID: id, GoType: "*go/types.Var", Attrs: map[string]interp.Value{"type": &nt, "name": name, "constraintOf": interp.Lit(typ.ID)}}, nil
+	}
+	d.m.Ext["go/types.NewTuple"] = func(m *interp.Machine, pos token.Pos, recv interp.Value, args []interp.Value) (interp.Value, error) {
+		var vars []*interp.Opaque
+		for _, a := range args {
+			// variadic: the variables as written, or one list of them
+			if l, ok := a.(*interp.List); ok {
+				for _, e := range l.Elems {
+					o, ok := e.(*interp.Opaque)
+					if !ok {
+						return &interp.Unknown{Why: "types.NewTuple"}, nil
+					}
+					vars = append(vars, o)
+				}
+				continue
+			}
+			if _, isNil := a.(interp.NilV); isNil {
+				continue
+			}
+			o, ok := a.(*interp.Opaque)
+			if !ok {
+				return &interp.Unknown{Why: "types.NewTuple"}, nil
+			}
+			vars = append(vars, o)
+		}
+		return tupleList(fmt.Sprintf("newtuple%d", m.NextSeq()), vars), nil
 	}
 	if fn := calleeOfField(prog, "TypeParamData", "Constraint"); fn != nil {
 		// the representative-type choice is value level (type sets); modelled per shape
